@@ -56,48 +56,61 @@ THEOREMS = [
     'C09_lattice_element_material_linked',
 ]
 TRUSTED = [
-    'hand-written model coq/C09/Model.v (tied by execution only); pot_fill '
-    'and develop_lattice are modelled without geometry and transformations '
-    '(cell_transform only allocates further keys)',
-    'Python re semantics of the four patterns of normalize_float: modelled as '
-    'explicit string functions, tied exhaustively on the small alphabet',
-    'float(): the model only decides WHETHER float() accepts a spelling '
-    '(float_ok), tied on the same exhaustive domain; values are compared by '
-    'the sweep oracle only',
-    'coq/C09/Spec.v: the spelling relation (sign, digits, fraction, padding '
-    'zeros, exponent marker E/e/D/d/none) and the reference reading of a FILL '
-    'hierarchy (leaves) are written from the MCNP manual, not proved against '
-    'anything',
-    'that the cell at the head of the provenance chain owns the POINTS of the '
-    'volume: linked inside Coq with C05 (C09_point_gets_leaf_material_linked, '
-    'over C05\'s abstract points/motions/senses and its model of '
-    'trcl_phase/fill_phase/inline_cells; lattices are C06); the numeric '
-    'geometry is additionally swept by the independent oracle (mcnpref '
-    'location vs t4eval membership)',
-    'harness: generators, impl.T4File reader, t4eval/mcnpref oracles, PEG shim '
-    'replacing TatSu',
+    'hand-written model coq/C09/Model.v, tied by execution only (exhaustive '
+    'small-alphabet domains for normalize_float, byte comparison for '
+    'writeT4Composition, line comparison for GEOMCOMP, whole final '
+    'dictionaries for pot_fill, LIKE chains, every whole conversion of the '
+    'sweep)',
+    'Python re semantics of the four patterns of normalize_float: explicit '
+    'string functions, tied exhaustively on two 8-letter alphabets',
+    'float(): only acceptance (float_ok) and the sign test (neg_density) are '
+    'modelled and tied; values are compared by the sweep oracle; '
+    'C09_normalize_float_value / C09_density_type_by_sign use the rational '
+    'reading number_value of coq/C09/Spec.v',
+    'coq/C09/Spec.v: the spelling relation, number_value and the reference '
+    'reading of a FILL hierarchy (leaves) are written from the MCNP manual; '
+    'leaves is proved to coincide with C05\'s Paths enumeration '
+    '(C09_fill_models_agree_linked)',
+    'ownership of points: no longer trusted for FILL hierarchies and lattice '
+    'elements — linked inside Coq with C05 and C06 '
+    '(C09_point_composition_written_linked, '
+    'C09_lattice_element_material_linked) over their abstract '
+    'points/motions/senses; what is still assumed there: C05\'s two interface '
+    'laws (C04), and that a non-empty returned cell has a non-virtual volume '
+    'numbered like the cell and carrying its idorigin (C01_cells + '
+    'C13/LinkC01Orig.v prove this on C01\'s model; no bridge from C05\'s '
+    'table to C01\'s cell table exists); which lattice index a point falls '
+    'in is C06\'s statement',
+    'nuclide lists and %.15e concentrations inside the COMPOSITION blocks are '
+    'C10\'s (handed to write_compositions as data)',
+    'harness: generators, impl.T4File reader, t4eval/mcnpref oracles (numeric '
+    'sweep of the same ownership statement on real decks), PEG shim replacing '
+    'TatSu',
 ]
 ASSUMPTIONS = [
     'density and material tokens are ASCII without blanks, newlines, '
     'underscores and letters other than e/E/d/D (Python\'s "$" before a final '
-    'newline, int()/float() on underscores, inf/nan are not modelled)',
+    'newline, int()/float() on underscores, inf/nan, float underflow are not '
+    'modelled)',
+    'cards enter the LIKE-chain model as (material tokens, option entries): '
+    'the split of a card and the keyword tokenizer are C15\'s',
     'fillid of the cells handed to pot_fill is a plain universe number '
     '(lattices are developed before); importances are integers',
     'C09_normalize_float_classes: the number has at least one mantissa digit '
-    '(otherwise the token is not a number); no guard on the padding any '
-    'more (repaired in /repo bd76c8d); spelling differences outside the '
-    'relation stay distinct (C09_normalize_float_kept_distinct)',
+    '(otherwise the token is not a number); spelling differences outside the '
+    'relation stay distinct (C09_normalize_float_kept_distinct, exact '
+    'characterisation: C09_same_name_iff)',
     'C09_provenance_head_is_leaf / C09_pot_fill_provenance: the parsed cells '
     'carry no provenance (idorigin empty) and new_cell_key is not below any '
-    'existing key (true of construct_volume_t4: free_key = max key + 1); the '
-    'statement is conditional on pot_fill returning (no RecursionError), '
-    'which C09_treat_fill_total proves for acyclic universe nesting and '
-    'fuel above the nesting depth',
-    'C09_compositions_exact / C09_geomcomp_name_has_composition: the stored '
-    'densities are fixed points of normalize_float (proved for every string '
-    'parse_material can store: C09_normalize_float_idempotent, '
-    'C09_parse_material_density_fixed); no guard on the spelling of the '
-    'material number any more (repaired in /repo d8902ad)',
+    'existing key (true of construct_volume_t4: free_key = max key + 1); '
+    'conditional on pot_fill returning, which C09_treat_fill_total proves for '
+    'acyclic universe nesting',
+    'C09_compositions_exact / C09_write_compositions: the stored densities are '
+    'fixed points of normalize_float — proved for every string parse_material '
+    'can store (C09_normalize_float_idempotent)',
+    'C09_point_composition_written_linked: the container has positive '
+    'importance; C05\'s hypotheses on the table of parsed cards (fresh '
+    'counters, empty caches, distinct keys, no CellRef yet, no provenance)',
 ]
 HEADER = ('From Coq Require Import List NArith ZArith Bool String Ascii.\n'
           'From Coq Require Uint63.\n'
